@@ -377,6 +377,62 @@ def large_leg(ns, res, rng, count):
         js.close()
 
 
+def huge_leg(ns, res, rng):
+    """Tables of tens of thousands of records with few distinct sort keys: anything that sorts, merges or deduplicates in runs / blocks of a fixed
+    size shows here and nowhere else.  Direct oracle: ORDER BY is the stable sort of the unsorted output, DESC its exact reverse, DISTINCT keeps
+    first occurrences of the sorted sequence, TOP n its first n."""
+    for nrows in (rng.choice([20011, 33000, 41017]), rng.choice([65537, 70001, 100003])):
+        keys = rng.choice([['a', 'b', 'ab', 'c'], ['k%d' % v for v in range(40)], ['x', 'y']])
+        huge_case(ns, res, nrows, keys, rng.randrange(1 << 30), True)
+
+
+def huge_case(ns, res, nrows, keys, salt, with_js):
+    from ..js import bridge
+    trng = random.Random(salt)
+    A = [[trng.choice(keys), 's%d' % k, trng.choice(['p', 'q', 'r'])] for k in range(nrows)]
+    info = {'leg': 'huge', 'nrows': nrows, 'keys': keys, 'salt': salt, 'A_head': A[:20]}
+    asc = sorted(A, key=lambda r: r[0])
+    expectations = [('select a1, a2, a3 order by a1', asc), ('select a1, a2, a3 order by a1 desc', asc[::-1]),
+                    ('select top 25000 a1, a2 order by a1 desc', [r[:2] for r in asc[::-1][:25000]]),
+                    ('select a1, a2 order by a1 desc limit 7', [r[:2] for r in asc[::-1][:7]])]
+    seen, dd = set(), []
+    for r in asc[::-1]:
+        if (r[0], r[2]) not in seen:
+            seen.add((r[0], r[2]))
+            dd.append([r[0], r[2]])
+    expectations.append(('select distinct a1, a3 order by a1 desc', dd))
+    expectations.append(('select a1, a2 order by a3, a1 desc', [r[:2] for r in sorted(A, key=lambda r: (r[2], r[0]))[::-1]]))
+    for query, exp in expectations:
+        out, warnings = [], []
+        try:
+            ns.rbql.query_table(query, [list(r) for r in A], out, warnings)
+        except Exception as e:
+            res.violation('py:huge-table-query-failed', '[py] %s over %d records fails: %s' % (query, nrows, e), dict(info, query=query))
+            continue
+        res.evaluations += 1
+        res.count('huge_table_runs')
+        res.nontrivial('huge', query, nrows, repr(keys))
+        if out != exp:
+            k = next((i for i in range(min(len(out), len(exp))) if out[i] != exp[i]), min(len(out), len(exp)))
+            res.violation('py:huge-table-order-differs-from-stable-sort', '[py] %s over %d records (%d distinct keys): output record %d is %r, the stable sort / its reverse gives %r (%d vs %d records)' % (
+                query, nrows, len(keys), k, out[k:k + 1], exp[k:k + 1], len(out), len(exp)), dict(info, query=query))
+    node = bridge.Node.start() if with_js else None
+    if node is not None:
+        try:
+            for query, exp in expectations[:3]:
+                rep = node.call({'op': 'query_table', 'query': query, 'input': A, 'join': None, 'input_cols': None, 'join_cols': None})
+                res.count('js_huge_table_runs')
+                got = rep.get('out')
+                if rep.get('error') is not None:
+                    res.violation('js:huge-table-query-failed', '[js] %s over %d records fails: %r' % (query, nrows, rep.get('error')), dict(info, engine='js', query=query))
+                elif got != exp:
+                    k = next((i for i in range(min(len(got), len(exp))) if got[i] != exp[i]), min(len(got), len(exp)))
+                    res.violation('js:huge-table-order-differs-from-stable-sort', '[js] %s over %d records: output record %d is %r, the stable sort / its reverse gives %r (%d vs %d records)' % (
+                        query, nrows, k, got[k:k + 1], exp[k:k + 1], len(got), len(exp)), dict(info, engine='js', query=query))
+        finally:
+            node.close()
+
+
 def typed_leg(ns, res, rng, count):
     """ORDER BY / DISTINCT / DISTINCT COUNT / TOP over keys that arrive typed from a dataframe or a sqlite table (numeric order for numbers, also negative
     and beyond 2**53) and as text from a CSV reader (text order unless the query converts)."""
@@ -476,6 +532,8 @@ def run_shard(spec, res):
         js_values_leg(res, rng, spec['n'])
         return
     if spec['kind'] == 'large':
+        if spec['i'] == 0:
+            huge_leg(ns, res, rng)
         large_leg(ns, res, rng, spec['n'])
         return
     if spec['kind'] == 'typed':
@@ -523,7 +581,7 @@ def summarize(tier, seed, m):
     shapes = sorted(k[6:] for k in m['counters'] if k.startswith('shape:'))
     return {
         'rule': 'base queries over tables with many duplicate keys: ORDER BY 1-2 keys (str / int / len / mixed) x ASC/DESC x {none, DISTINCT, DISTINCT COUNT} x {WHERE, JOIN, UNNEST}; for each base every bound n in 0..|out|+1 (TOP and LIMIT) is executed and compared with the prefix of the unbounded run and with the reference; ASC/DESC pairs compared as exact reverses; streaming bounded queries are run over an unbounded lazy input with a read budget equal to the position of the record producing output n+1. the CSV front-end over an endless byte stream (three policies, utf-8 / latin-1, LF / CRLF, header, comment lines) with a 256 KiB byte budget, and the command line fed an endless standard input (violation only after 48 MiB were consumed: logical budgets, no wall-clock verdicts), for bounded streaming SELECTs (UPDATE ignores LIMIT and is not a bounded query); tables of 257-2000 records over 3-12 distinct cell values under ORDER BY / DISTINCT / DISTINCT COUNT / WHERE combinations with bounds 0, 1, 2, 5, 50, 128, 255-257, 600 and around the size of the unbounded result; a typed leg: nine ORDER BY / DESC / two-part key / DISTINCT / DISTINCT COUNT / TOP shapes over records delivered by a dataframe, a sqlite table (numbers in numeric order, negative and beyond 2**53) and a CSV reader (text order unless the query converts), fields compared by value and type; distinct_nontrivial = distinct bases with more than one output row + distinct unbounded runs.',
-        'required': ['typed_order_distinct_runs:pandas', 'typed_order_distinct_runs:sqlite', 'typed_order_distinct_runs:csv', 'large_table_cases', 'large_table_bound_runs', 'unbounded_stream_runs', 'stream_bytes_within_budget', 'cli_unbounded_stdin_runs', 'js_value_cases', 'py_cases', 'bound_runs', 'asc_desc_pairs', 'unbounded_runs', 'reads_within_budget', 'js_cases', 'js_unbounded_runs', 'js_reads_within_budget'],
+        'required': ['huge_table_runs', 'js_huge_table_runs', 'typed_order_distinct_runs:pandas', 'typed_order_distinct_runs:sqlite', 'typed_order_distinct_runs:csv', 'large_table_cases', 'large_table_bound_runs', 'unbounded_stream_runs', 'stream_bytes_within_budget', 'cli_unbounded_stdin_runs', 'js_value_cases', 'py_cases', 'bound_runs', 'asc_desc_pairs', 'unbounded_runs', 'reads_within_budget', 'js_cases', 'js_unbounded_runs', 'js_reads_within_budget'],
         'extra': {'shapes_seen': shapes},
         'assumptions': ['termination clause restated as bounded progress: reads <= position of the record producing output n+1; inputs on which output n+1 never exists are not used'],
     }
@@ -531,6 +589,9 @@ def summarize(tier, seed, m):
 
 def replay(case, res):
     ns = env.import_rbql()
+    if case.get('leg') == 'huge':
+        huge_case(ns, res, case['nrows'], case['keys'], case['salt'], True)
+        return
     if case.get('unbounded'):
         u = case['unbounded']
         fn = lambda k: lazy_record(k, u['period'], u['width'])
